@@ -62,6 +62,11 @@ func runC03(p *core.Program, r *core.Report) {
 	c03R10(p, r)
 	c03R11(p, r)
 	c03R12(p, r)
+	// R13: a reference given as text names the package up to the LAST dot before the type arguments: the import that is
+	// registered is the package that was meant
+	chainRules(p, r, "R13", "C15", []string{"C15.R3"}, "textual references are split into package path and name at the last dot")
+	// R14: an argument of a template is rendered where its placeholder stands - and only there: rendering registers
+	chainRules(p, r, "R14", "C09", []string{"C09.R3"}, "template arguments are rendered at their placeholders only")
 }
 
 // c03R8: rendering a snippet registers its imports with the tracker of the
